@@ -199,6 +199,7 @@ func R_C06_pool() {
 				s := uint64(g*1000 + r%50)
 				_, _ = p.LookupOrAllocIP(s)
 				_ = p.String()
+				_ = p.holds(s)
 				_ = p.DeallocIP(s)
 			}
 		}(g)
